@@ -119,6 +119,7 @@ type snapModel struct {
 }
 
 type world struct {
+	forcedFired int // scripted faults (errbefore/errafter/sticky) that fired
 	r     *hx.Rec
 	s     *simrt.Sim
 	tp    *simrt.Tape
